@@ -2,7 +2,7 @@ SPECIFICATION Spec
 CONSTANTS
   MaxVariants = 1
   MaxFields = 2
-  VMenu = {"none", "ren", "hint_tuple", "hint_struct", "hint_unit"}
+  VMenu = {"none", "ren", "hint_tuple", "hint_struct", "hint_unit", "hint_tuple_ded"}
   FMenu = {"none", "ren", "expr", "ghostd"}
 INVARIANTS Emit Symmetric
 CHECK_DEADLOCK FALSE
